@@ -117,4 +117,28 @@ example : ∃ p1 pos p2 e' ds', parseSource pf0 ([72, 105, 32] ++ printPrint ff0
     erase e' = erase exArg ∧ ds'.map eraseDir = exDirs.map eraseDir :=
   print_cmd_in_body_roundtrip ff0 pf0 _ _ (Or.inr (by decide)) (Or.inr (by decide)) exArg exDirs exCmd_ok exCmd_canon
 
+open SoyVerif.Props.C17d (CBody BPiece WFL CanonB NodesMatch srcOfC itemsOfC)
+
+/-- `body_source_spec_cmds` without table hypotheses -/
+theorem body_source_spec_cmds (ff : UInt64 → Bytes) (pf : Bytes → Option UInt64) (b : CBody) (hw : WFL ff b)
+    (hc : CanonB ff pf b) :
+    lexAll (srcOfC ff b) false = .items (itemsOfC ff 0 b) ∧
+      ∃ nl, parseSource pf (srcOfC ff b) = .ok nl ∧ NodesMatch nl b :=
+  SoyVerif.Props.C17d.body_source_spec_cmds ff pf lexTableOK tableOK b hw hc
+
+/-- `Hi {$a ?: -1|truncate:$b ? 1 : 2,-3|id}⏎␣␣{$a}!` -/
+def exBody : CBody := [.text [72, 105, 32], .cmd exArg exDirs, .text [10, 32, 32], .cmd (v 97) [], .text [33]]
+
+theorem exBody_wf : WFL ff0 exBody :=
+  ⟨by decide, by simp [BPiece.isText], exCmd_ok, by decide, by simp [BPiece.isText],
+    ⟨by decide, fun d hd => by cases hd⟩, by decide, by simp, trivial⟩
+
+theorem exBody_canon : CanonB ff0 pf0 exBody :=
+  ⟨exCmd_canon, ⟨by simp only [v, Canon, CanonAL], fun d hd => by cases hd⟩, trivial⟩
+
+/-- non-vacuity: two print commands, three text pieces (the middle one dropped by the lexer) -/
+example : lexAll (srcOfC ff0 exBody) false = .items (itemsOfC ff0 0 exBody) ∧
+    ∃ nl, parseSource pf0 (srcOfC ff0 exBody) = .ok nl ∧ NodesMatch nl exBody :=
+  body_source_spec_cmds ff0 pf0 exBody exBody_wf exBody_canon
+
 end SoyVerif.Inst.C17c
